@@ -43,7 +43,7 @@ SigLen(s) == IF s = "bls" THEN 96 ELSE 64
 
 Default == <<100, 101, 102, 97, 117, 108, 116>>        \* "default"
 Entrypoints == {<<>>, Default, <<97>>, Fill(31, 101), <<115, 101, 116, 95>> \o Default, <<49, 115, 116>>,
-                <<100, 111>>, <<114, 111, 111, 116>>, <<115, 101, 116, 95, 100, 101, 108, 101, 103, 97, 116, 101>>}   \* "do", "root", "set_delegate": names the operation encoding abbreviates to a tag; inside a value they are names like any other  \* none, "default", "a", 31 x "e", "set_default" (ends in, but is not, the default name), "1st" (a name may start with a digit)
+                <<100, 111>>, <<114, 111, 111, 116>>, <<115, 101, 116, 95, 100, 101, 108, 101, 103, 97, 116, 101>>, Default \o <<115>>}   \* "do", "root", "set_delegate": names the operation encoding abbreviates to a tag; inside a value they are names like any other; "defaults" begins with the default name  \* none, "default", "a", 31 x "e", "set_default" (ends in, but is not, the default name), "1st" (a name may start with a digit)
 
 \* payloads that happen to be well-formed PACKed Micheline (05 <expr>): a chain id / signature stays what its length says
 PackLookalikes == {<<"chain", "net", <<5, 0, 129, 1>>>>,                                 \* = PACK of the int 65
